@@ -946,14 +946,17 @@ func init() {
 		Run: func(c *Ctx) []Obligation {
 			const rid = "HEAD.quoted-is-data"
 			var obs []Obligation
-			quotedCls := func(info *types.Info, head string) func(e ast.Expr) (string, bool) {
+			quotedCls := func(info *types.Info, body ast.Node, head string) func(e ast.Expr) (string, bool) {
+				same := func(x ast.Expr) bool {
+					return types.ExprString(ast.Unparen(x)) == head || aliasResolvedString(info, body, x) == head
+				}
 				return func(e ast.Expr) (string, bool) {
 					e = ast.Unparen(e)
-					if se, ok := e.(*ast.SelectorExpr); ok && se.Sel.Name == "quoted" && types.ExprString(ast.Unparen(se.X)) == head {
+					if se, ok := e.(*ast.SelectorExpr); ok && se.Sel.Name == "quoted" && same(se.X) {
 						return "q", false
 					}
 					if ce, ok := e.(*ast.CallExpr); ok && len(ce.Args) == 0 {
-						if se, ok := ast.Unparen(ce.Fun).(*ast.SelectorExpr); ok && se.Sel.Name == "IsQuoted" && types.ExprString(ast.Unparen(se.X)) == head {
+						if se, ok := ast.Unparen(ce.Fun).(*ast.SelectorExpr); ok && se.Sel.Name == "IsQuoted" && same(se.X) {
 							return "q", false
 						}
 					}
@@ -972,7 +975,7 @@ func init() {
 				if fd.Type.Params != nil && len(fd.Type.Params.List) > 0 && len(fd.Type.Params.List[0].Names) > 0 {
 					param = fd.Type.Params.List[0].Names[0].Name
 				}
-				cut := fc.edgesEntailing(quotedCls(info, param+".Cells[0]"), notQuoted)
+				cut := fc.edgesEntailing(quotedCls(info, fd.Body, param+".Cells[0]"), notQuoted)
 				none := c.LookupConst("lisp.unquoteNone")
 				ord := &ordinal{}
 				for _, b := range fc.G.Blocks {
@@ -1005,44 +1008,56 @@ func init() {
 					continue
 				}
 				u := FuncUnit{fn, fd, pkg}
-				info := pkg.TypesInfo
-				fc := c.cfgOf(u, nil)
-				// the head: the local defined as <form>.Cells[0]
-				head := ""
-				ast.Inspect(fd.Body, func(n ast.Node) bool {
-					as, ok := n.(*ast.AssignStmt)
-					if !ok || len(as.Lhs) != 1 || len(as.Rhs) != 1 {
-						return true
+				found := false
+				// the expansion may be written in the builtin or in a private helper it calls
+				for _, hu := range c.withHelpers(u) {
+					info := hu.Pkg.TypesInfo
+					direct := false
+					for _, ce := range callsIn(hu.Decl.Body, false) {
+						if originOf(Callee(info, ce)) == exp1 {
+							direct = true
+						}
 					}
-					if ix, ok := ast.Unparen(as.Rhs[0]).(*ast.IndexExpr); ok {
-						if k, ok := intConst(info, ix.Index); ok && k == 0 {
-							if se, ok := ast.Unparen(ix.X).(*ast.SelectorExpr); ok && se.Sel.Name == "Cells" {
-								if id, ok := as.Lhs[0].(*ast.Ident); ok {
-									head = id.Name
+					if !direct {
+						continue
+					}
+					fc := c.cfgOf(hu, nil)
+					// the head: the local defined as <form>.Cells[0]
+					head := ""
+					ast.Inspect(hu.Decl.Body, func(n ast.Node) bool {
+						as, ok := n.(*ast.AssignStmt)
+						if !ok || len(as.Lhs) != 1 || len(as.Rhs) != 1 {
+							return true
+						}
+						if ix, ok := ast.Unparen(as.Rhs[0]).(*ast.IndexExpr); ok {
+							if k, ok := intConst(info, ix.Index); ok && k == 0 {
+								if se, ok := ast.Unparen(ix.X).(*ast.SelectorExpr); ok && se.Sel.Name == "Cells" {
+									if id, ok := as.Lhs[0].(*ast.Ident); ok {
+										head = id.Name
+									}
 								}
 							}
 						}
-					}
-					return true
-				})
-				cut := fc.edgesEntailing(quotedCls(info, head), notQuoted)
-				found := false
-				for _, b := range fc.G.Blocks {
-					if !fc.Live(b) {
-						continue
-					}
-					for _, n := range b.Nodes {
-						ce := nodeCalls(info, n, exp1)
-						if ce == nil {
+						return true
+					})
+					cut := fc.edgesEntailing(quotedCls(info, hu.Decl.Body, head), notQuoted)
+					for _, b := range fc.G.Blocks {
+						if !fc.Live(b) {
 							continue
 						}
-						found = true
-						if head == "" {
-							obs = append(obs, mkOb(c, rid, u, "expansion of the head", ce, Undecided, "the head of the form is not a local defined as <form>.Cells[0]", true))
-						} else if fc.reachableAvoiding(b, cut) {
-							obs = append(obs, mkOb(c, rid, u, "expansion of the head", ce, Violated, "the head symbol is looked up and expanded as a macro without a test that it is not quoted: (macroexpand '('inc 41)) expands a form that eval refuses (\"first element of expression is not a function: 'inc\"), so evaluating a macro call and evaluating its macroexpand disagree", true))
-						} else {
-							obs = append(obs, mkOb(c, rid, u, "expansion of the head", ce, Proved, "only for an unquoted head `"+head+"`", true))
+						for _, n := range b.Nodes {
+							ce := nodeCalls(info, n, exp1)
+							if ce == nil {
+								continue
+							}
+							found = true
+							if head == "" {
+								obs = append(obs, mkOb(c, rid, u, "expansion of the head", ce, Undecided, "the head of the form is not a local defined as <form>.Cells[0]", true))
+							} else if fc.reachableAvoiding(b, cut) {
+								obs = append(obs, mkOb(c, rid, u, "expansion of the head", ce, Violated, "the head symbol is looked up and expanded as a macro without a test that it is not quoted: (macroexpand '('inc 41)) expands a form that eval refuses (\"first element of expression is not a function: 'inc\"), so evaluating a macro call and evaluating its macroexpand disagree", true))
+							} else {
+								obs = append(obs, mkOb(c, rid, u, "expansion of the head", ce, Proved, "only for an unquoted head `"+head+"` ("+hu.Name()+")", true))
+							}
 						}
 					}
 				}
